@@ -1,10 +1,11 @@
 #!/bin/sh
-# usage: tools/trypatch.sh <patch.diff> <PROP>...   -- applies the patch to a scratch worktree of /repo HEAD and runs the checks against it
+# usage: tools/trypatch.sh <patch.diff> <PROP>...   -- applies the patch to a scratch copy of /repo HEAD and runs the checks against it
 P=$(realpath "$1"); shift
 D=$(mktemp -d)
-trap 'git -C /repo worktree remove --force "$D/repo" >/dev/null 2>&1; rm -rf "$D"' EXIT
-git -C /repo worktree add --detach "$D/repo" HEAD -q || exit 3
-(cd "$D/repo" && git apply -3 --whitespace=nowarn "$P" 2>"$D/apply.err") || { echo "PATCH DOES NOT APPLY"; cat "$D/apply.err"; exit 3; }
+trap 'rm -rf "$D"' EXIT
+mkdir -p "$D/repo"
+git -C /repo archive HEAD | tar -x -C "$D/repo" || exit 3
+(cd "$D/repo" && git apply --whitespace=nowarn "$P" 2>"$D/apply.err") || { echo "PATCH DOES NOT APPLY"; cat "$D/apply.err"; exit 3; }
 rc=0
 for prop in "$@"; do
   REPO="$D/repo" VERIF_WORK="$D/work" VERIF_EVIDENCE_DIR="$D/ev" "$(dirname "$0")/../check" "$prop" || rc=$?
